@@ -142,3 +142,47 @@ def profile_programs(tier):
                 p = fp.build(mac, ds, flavour=fl if mac.startswith("try") else None, rich=True)
                 progs.append(fp.to_prog("%s/%s/%s" % (mac, fl, fp.pname(ds)), p, fp.offset_rows()))
     return progs
+
+
+def wrapper_order_programs():
+    """block operands BEFORE a wrapper opens, INSIDE it (one and two levels deep) and AFTER it closes, in the same branch and step:
+    they are evaluated in the order they are written (branch-then-position order), each reading a counter the previous one bumped"""
+    from .dsl import Wrap
+    progs = []
+    def cap(tag, body):
+        return B('ev0("c.%s"); let k = cnt(); %s' % (tag, body))
+    for mac in ("join", "try_join", "join_spawn"):
+        is_try, is_async = mac == "try_join", False
+        for shape in range(4):
+            for deferred in (False, True):
+                def branch(b):
+                    f1 = "move |v: i32| v * 10 + k"
+                    fo = "move |o: Option<Option<i32>>| o.map(|i| i.map(|v| v * 10 + k))"
+                    if is_async:
+                        init = cap("%d.i" % b, "ready(Some(Some(%d + k)))" % b) if shape != 3 else O("ready(Some(Some(%d)))" % b)
+                        outer_op, fo_t = "|>", fo
+                    else:
+                        init = cap("%d.i" % b, "Some(Some(%d + k))" % b) if shape != 3 else O("Some(Some(%d))" % b)
+                        outer_op, fo_t = "->", fo
+                    inner2 = Wrap("|>", [Op("->", [cap("%d.in2" % b, f1)])], close=True)
+                    if shape == 0:    # initial block, block inside one level
+                        items = [Wrap("|>", [Op("|>", [cap("%d.in1" % b, f1)])], close=True)]
+                    elif shape == 1:  # block operand before the wrapper, blocks at both levels, block after the close
+                        items = [Op(outer_op, [cap("%d.pre" % b, fo_t)]), Wrap("|>", [inner2], close=True), Op(outer_op, [cap("%d.post" % b, fo_t)])]
+                    elif shape == 2:  # wrapper left open to the end of the step
+                        items = [Op(outer_op, [cap("%d.pre" % b, fo_t)]), Wrap("|>", [Wrap("|>", [Op("->", [cap("%d.in2" % b, f1)])], close=False)], close=False)]
+                    else:             # no initial block: a block before, inside level 1 and inside level 2
+                        items = [Op(outer_op, [cap("%d.pre" % b, fo_t)]), Wrap("|>", [Op("->", [cap("%d.in1" % b, "move |i: Option<i32>| i.map(|v| v + k)")]), inner2], close=True)]
+                    items[0].deferred = deferred
+                    return Branch(init, items)
+                p = Program(mac, [branch(0), branch(1)], flavour="Opt" if is_try else None)
+                if is_try and False:
+                    continue
+                d, r = dsl.program_dsl(p), dsl.program_ref(p)
+                fm = 'format!("{:?}", x)'
+                if is_async:
+                    rb, mb = "let x = futures::executor::block_on(%s);\n%s" % (r, fm), "let x = futures::executor::block_on(%s);\n%s" % (d, fm)
+                else:
+                    rb, mb = "let x = %s;\n%s" % (r, fm), "let x = %s;\n%s" % (d, fm)
+                progs.append(Prog("wraporder/%s/%d/%d" % (mac, shape, deferred), rb, mb, [[0]], "Full" if mac in ("join", "try_join") else "Proj", meta={"macro": mac, "dsl": d, "ref": r}))
+    return progs
